@@ -196,7 +196,7 @@ class TlsApplicationDataMessage(TlsSubprotocolMessageBase):
 
     @classmethod
     def _parse(cls, parsable):
-        return TlsApplicationDataMessage(parsable), len(parsable)
+        return TlsApplicationDataMessage(bytearray(parsable)), len(parsable)
 
     def compose(self):
         return self.data
